@@ -80,6 +80,8 @@ pub trait USet: Sized + Clone + PartialEq + std::fmt::Debug + Send + Sync + 'sta
     fn drain_items(&mut self) -> Vec<u64>;
     fn drain_drop(&mut self, take: usize) -> Vec<u64>;
     fn repr(&self) -> (usize, Heap);
+    /// (word, Some((sz, cap, bits))) without copying the array
+    fn header(&self) -> (usize, Option<(usize, usize, u64)>);
     /// after `pos` calls of next(): everything next() still yields, plus two extra calls that must be None
     fn nexts(&self, which: It, pos: usize) -> (Vec<u64>, bool);
     /// after `pos` calls of next(): the shortcut `kind`
@@ -242,6 +244,10 @@ macro_rules! impl_uset {
             fn repr(&self) -> (usize, Heap) {
                 let r = self.verif_repr();
                 (r.word, r.heap.map(|(a, b, c, d)| (a, b, c as u64, d.into_iter().map(|x| x as u64).collect())))
+            }
+            fn header(&self) -> (usize, Option<(usize, usize, u64)>) {
+                let (w, h) = self.verif_header();
+                (w, h.map(|(a, b, c)| (a, b, c as u64)))
             }
             fn nexts(&self, which: It, pos: usize) -> (Vec<u64>, bool) {
                 match which {
